@@ -181,11 +181,7 @@ def run(pid: str, tier: str, seed: int, selftest=False, replay=None) -> int:
     n_gen = {"quick": 250, "thorough": 3000}[tier]
     a_stage, b_stage, contract, passname = STAGES[pid]
     sources = []
-    if replay:
-        import json
-        r = json.load(open(replay))
-        sources = [(r["key"], r["source"], r.get("argdom"), r.get("opqdom"))]
-    else:
+    if True:   # (--replay re-runs the whole check with the recorded seed and reports only that case: check.py / common.Report.finish)
         for name, text in witness_texts(pid):
             sources.append((name, text, None, None))
         for name, text in corpus_texts():
